@@ -41,6 +41,9 @@ class C04(Prop):
                "rmprefix": 3, "move": 3, "rule": 1, "unrule": 1, "reopen": 1}
     QUICK = (40, 20)
     THOROUGH = (200, 40)
+    TECHNIQUE = ("stateful property-based testing (Hypothesis) against a ledger oracle; thorough tier adds coverage-guided "
+                 "fuzzing of histories (atheris/libFuzzer driving Hypothesis' fuzz_one_input)")
+    FUZZ_RUNS = 400
     ASSUMPTIONS = ["prefix map = explicit edits that the index accepted + creations listed in write reports"]
 
     def before_op(self, case, op):
